@@ -12,7 +12,7 @@
 
    Local state: archive file content (if the file exists), set of names in the installed index,
    requests made, log of extraction / upgrade calls.  Exceptions are outcomes ([Raise]). *)
-From Coq Require Import List Bool String ZArith.
+From Coq Require Import List Bool String Ascii ZArith NArith.
 From KV Require Import Eqb Str.
 Import ListNotations.
 Local Open Scope string_scope.
@@ -223,6 +223,16 @@ Definition honest (good : bytes) : server := fun rs =>
           end) false.
 
 (* ---- correspondence *)
+(* non-printable byte strings are written in hexadecimal in the generated shards *)
+Definition hexval (c : Ascii.ascii) : N :=
+  let n := Ascii.N_of_ascii c in
+  if (n <? 58)%N then (n - 48)%N else (n - 87)%N.        (* '0'..'9', 'a'..'f' *)
+Fixpoint unhex (s : string) : string :=
+  match s with
+  | String a (String b s') => String (Ascii.ascii_of_N (hexval a * 16 + hexval b)) (unhex s')
+  | _ => EmptyString
+  end.
+
 Definition status_str (st : status) : string :=
   match st with
   | SInstalled => "installed" | SNotInstalled => "not installed" | SIncomplete => "incomplete"
